@@ -460,7 +460,8 @@ _EXTRA = {
             (D2.D6_bond_order_precedence, "C18.4 user bond-order rules take precedence over every built-in guess and are forwarded by every parameter function"),
             (D2.D8_formula_reference, "C18.1-3 pair, bond and angle parameters: returned terms equal the documented formulas in normal form on every abstract input (incl. the cosine/periodic n, b table and the fourier coefficients)"),
             (D2.D9_type_string_parsing, "C18.5 element and hybridisation character are derived correctly from every one of the 221 type labels")],
-    "C19": [(D2.D5_torsion_table, "C19 'dihedrals for which no torsion is defined are dropped' rests on dihedral_params returning None exactly for the documented cases"),
+    "C19": [(D2.D9_type_string_parsing, "C19 which dihedrals are dropped depends on the element and hybridisation read from the type label: both are derived correctly from every one of the 221 labels"),
+            (D2.D5_torsion_table, "C19 'dihedrals for which no torsion is defined are dropped' rests on dihedral_params returning None exactly for the documented cases"),
             (D2.D6_bond_order_precedence, "C19 term parameters honour the user bond-order rules")],
     "C20": [(A.A1_inputs_not_mutated, "C20 'with only a find pattern ... writes the structure unmodified': the search does not modify the structure it is given", {"only": ["find_pattern_in_structure"]}),
             (E.E_dispatch, "C20 the command line loads and saves through Atoms.load / Atoms.save: the file type of every path argument is what follows the LAST dot, explicit type beats extension"),
